@@ -1,0 +1,92 @@
+//go:build verif
+
+// Contracts for the deductive verification in /verif (govc): TLS <= 1.2 key derivation
+// (prf.go, property C26). HMAC and the hash functions are outside the reach of contracts:
+// what is proved is the wiring the RFCs prescribe - which secret halves, labels, seeds (and
+// in which order) reach P_hash, and how the key block is cut up. Comment-only file.
+
+package tls
+
+// cat(x, a, b): x is the concatenation a ++ b
+//@ pred cat(x, a, b) = len(x) == len(a) + len(b) && forall(k, 0, len(a), x[k] == a[k]) && forall(k, 0, len(b), x[len(a)+k] == b[k])
+
+// RFC 2246 5: S1 and S2 are the two halves of the secret, each ceil(len/2) bytes long,
+// sharing the middle byte when the length is odd.
+//@ func splitPreMasterSecret
+//@   ensures same(s1, secret[0 : (len(secret)+1)/2]) && same(s2, secret[len(secret)/2:])
+//@   ensures len(s1) == len(s2) && len(s1) == (len(secret)+1)/2
+//@   terminates
+
+//@ func prfAndHashForVersion
+//@   requires version == VersionTLS12 ==> suite != nil
+//@   panics_when !(version == VersionTLS10 || version == VersionTLS11 || version == VersionTLS12)
+//@   ensures (version == VersionTLS10 || version == VersionTLS11) ==> uint(result1) == 0
+//@   ensures version == VersionTLS12 && suite.flags&suiteSHA384 != 0 ==> uint(result1) == 6
+//@   ensures version == VersionTLS12 && suite.flags&suiteSHA384 == 0 ==> uint(result1) == 5
+//@   ensures nonnil(result0)
+//@   mayalloc
+//@   terminates
+
+//@ func prf12
+//@   ensures nonnil(result)
+//@   mayalloc
+//@   terminates
+
+//@ func prfForVersion
+//@   requires version == VersionTLS12 ==> suite != nil
+//@   panics_when !(version == VersionTLS10 || version == VersionTLS11 || version == VersionTLS12)
+//@   ensures nonnil(result)
+//@   mayalloc
+//@   terminates
+
+// P_hash (RFC 2246 5 / RFC 5246 5): fills result; only result's elements change. HMAC is
+// uninterpreted, so the contents are not specified - termination relies on a digest being
+// at least one byte long.
+//@ func pHash
+//@   loop 1 invariant 0 <= j
+//@   loop 1 decreases len(result) - j
+//@   assume_nopanic funcvalue
+//@   modifies elems(result)
+//@   terminates
+
+// RFC 2246 5: PRF(secret, label, seed) = P_MD5(S1, label + seed) XOR P_SHA-1(S2, label + seed).
+//@ func prf10
+//@   requires sep(result, label) && sep(result, seed) && sep(result, secret)
+//@   at call pHash#1 assert samedata(arg1, secret[0 : (len(secret)+1)/2]) && cat(arg2, label, seed) && same(arg0, result)
+//@   at call pHash#2 assert samedata(arg1, secret[len(secret)/2:]) && cat(arg2, label, seed) && len(arg0) == len(result) && fresh(arg0)
+//@   loop 1 invariant len(result2) == len(result) && fresh(result2)
+//@   modifies elems(result)
+//@   terminates
+
+// RFC 5246 5: PRF(secret, label, seed) = P_<hash>(secret, label + seed).
+//@ func prf12$1
+//@   at call pHash assert same(arg0, result) && same(arg1, secret) && cat(arg2, label, seed)
+//@   modifies elems(result)
+//@   terminates
+
+// RFC 5246 8.1: master_secret = PRF(pre_master_secret, "master secret",
+//                                    ClientHello.random + ServerHello.random)[0..47]
+//@ global len(masterSecretLabel) == 13 && len(keyExpansionLabel) == 13 && len(clientFinishedLabel) == 15 && len(serverFinishedLabel) == 15
+//@ func masterFromPreMasterSecret
+//@   requires version == VersionTLS12 ==> suite != nil
+//@   requires version == VersionTLS10 || version == VersionTLS11 || version == VersionTLS12
+//@   assume_nopanic funcvalue
+//@   at call funcvalue assert len(arg0) == 48 && same(arg1, preMasterSecret) && same(arg2, masterSecretLabel) && cat(arg3, clientRandom, serverRandom)
+//@   ensures len(result) == 48 && fresh(result)
+//@   modifies all
+//@   terminates
+
+// RFC 5246 6.3: key_block = PRF(master_secret, "key expansion", server_random + client_random),
+// cut into client_write_MAC_key, server_write_MAC_key, client_write_key, server_write_key,
+// client_write_IV, server_write_IV - consecutive, in this order.
+//@ func keysFromMasterSecret
+//@   requires version == VersionTLS12 ==> suite != nil
+//@   requires version == VersionTLS10 || version == VersionTLS11 || version == VersionTLS12
+//@   requires 0 <= macLen && macLen <= 1024 && 0 <= keyLen && keyLen <= 1024 && 0 <= ivLen && ivLen <= 1024
+//@   assume_nopanic funcvalue
+//@   at call funcvalue assert len(arg0) == 2*macLen + 2*keyLen + 2*ivLen && same(arg1, masterSecret) && same(arg2, keyExpansionLabel) && cat(arg3, serverRandom, clientRandom)
+//@   ensures len(clientMAC) == macLen && len(serverMAC) == macLen && len(clientKey) == keyLen && len(serverKey) == keyLen && len(clientIV) == ivLen && len(serverIV) == ivLen
+//@   ensures samebase(serverMAC, clientMAC) && samebase(clientKey, clientMAC) && samebase(serverKey, clientMAC) && samebase(clientIV, clientMAC) && samebase(serverIV, clientMAC) && fresh(clientMAC)
+//@   ensures offset(clientMAC) == 0 && offset(serverMAC) == macLen && offset(clientKey) == 2*macLen && offset(serverKey) == 2*macLen + keyLen && offset(clientIV) == 2*macLen + 2*keyLen && offset(serverIV) == 2*macLen + 2*keyLen + ivLen
+//@   modifies all
+//@   terminates
